@@ -6,18 +6,28 @@ mod report;
 mod runner;
 mod util;
 
+mod c07;
+mod c08;
 mod c09;
+mod c10;
+mod c25;
+mod c28;
 
 use report::Report;
 use serde_json::Value;
 
 fn scenarios() -> Vec<(&'static str, &'static str)> {
-    vec![("c09.seq", "C09")]
+    vec![("c07.raw", "C07"), ("c08.values", "C08"), ("c09.seq", "C09"), ("c10.sched", "C10"), ("c25.local", "C25"), ("c28.helpers", "C28")]
 }
 
 fn run_scenario(name: &str, tier: &str, rep: &mut Report) -> bool {
     match name {
+        "c07.raw" => c07::run(tier, rep),
+        "c08.values" => c08::run(tier, rep),
         "c09.seq" => c09::run(tier, rep),
+        "c10.sched" => c10::run(tier, rep, "C10"),
+        "c25.local" => c25::run(tier, rep),
+        "c28.helpers" => c28::run(tier, rep),
         _ => return false,
     }
     true
@@ -25,7 +35,12 @@ fn run_scenario(name: &str, tier: &str, rep: &mut Report) -> bool {
 
 fn replay_scenario(name: &str, v: &Value, em: &mut runner::Emitter) -> bool {
     match name {
+        "c07.raw" => c07::replay(v, em),
+        "c08.values" => c08::replay(v, em),
         "c09.seq" => c09::replay(v, em),
+        "c10.sched" => c10::replay(v, em),
+        "c25.local" => c25::replay(v, em),
+        "c28.helpers" => c28::replay(v, em),
         _ => false,
     }
 }
